@@ -42,7 +42,7 @@ def sound_but_not_minimum(c, r, mres):
             seen.append(opt[0])
     for (k, opt), okk in zip(r[1], oks):
         if opt:
-            if mres[1 + seen.index(opt[0])] != 1 or len(opt[0]) > k:
+            if mres[2 + seen.index(opt[0])] != 1 or len(opt[0]) > k:
                 return False
         elif mn > k and okk != 1:
             return False
